@@ -198,7 +198,7 @@ def run(prop: str, tier: str) -> int:
         _t, n5 = engine.replay_worlds("c4", 1500, p5, lo=(prop == "C07"), subs=(prop == "C08"))
         jobs.append((p5, n5))
         p6 = os.path.join(work, "worlds-h3.ndjson")
-        _t, n6 = engine.replay_worlds("h3", 1000, p6, lo=(prop == "C07"), subs=(prop == "C08"))
+        _t, n6 = engine.replay_worlds("h3", 4000, p6, lo=(prop == "C07"), subs=(prop == "C08"))
         jobs.append((p6, n6))
     if tier == "thorough":
         for fam in ("t3", "t4", "t2", "n4", "c4", "h3"):
